@@ -301,7 +301,7 @@ func measure(f func()) float64 {
 // C17: reading allocates nothing; steady-state writing allocates nothing.
 func C17(c *runner.Cfg) *report.Result {
 	res := report.New("C17", "")
-	res.Rule = "message/list shapes from the C01 generator (random trees, wide messages >48 fields, lists of 255/256/300 elements, lists and messages of 673/800/1500/5000 entries, nesting >14, 64 KiB payloads, structs): (read) ParseValue + every field/element/string/bytes/nested message/struct accessor of pre-built bytes; (write) the same shape written into a reused buffer with a pooled writer (NewMessageWriterBuffer/NewListWriterBuffer) and with a reused owned writer (Reset); root values of every scalar kind, strings, bytes, lists and messages written through NewValueWriterBuffer ... Build and through Value() of the reused writer; oracle: testing.AllocsPerRun(100) == 0 after 3 warm-up runs, a non-zero reading must repeat 3 times; measured single-threaded; non-trivial = shape with >=2 nodes; distinct = distinct encodings"
+	res.Rule = "message/list shapes from the C01 generator (random trees, wide messages >48 fields, lists of 255/256/300 elements, lists and messages of 673/800/1500/5000 entries, nesting >14, 64 KiB payloads, structs): (read) ParseValue + every field/element/string/bytes/nested message/struct accessor of pre-built bytes; (write) the same shape written into a reused buffer with a pooled writer (NewMessageWriterBuffer/NewListWriterBuffer) and with a reused owned writer (Reset; also Free+Reset and failed message+Reset between messages); root values of every scalar kind, strings, bytes, lists and messages written through NewValueWriterBuffer ... Build and through Value() of the reused writer; oracle: testing.AllocsPerRun(100) == 0 after 3 warm-up runs, a non-zero reading must repeat 3 times; measured single-threaded; non-trivial = shape with >=2 nodes; distinct = distinct encodings"
 	old := runtime.GOMAXPROCS(1)
 	defer runtime.GOMAXPROCS(old)
 	n := c.N(300, 20000)
@@ -408,6 +408,43 @@ func C17(c *runner.Cfg) *report.Result {
 			}
 		}); a != 0 {
 			res.Violate("c17:reused-writer-allocates", fmt.Sprintf("steady-state write with a Reset writer into a reused buffer allocates %.0f objects per message", a), witness)
+		}
+		// a reused owned writer that is released between messages (Free, then Reset) or whose previous
+		// message failed (the failure releases its state; Reset re-arms it): in steady state the state
+		// comes from the pool
+		if idx%4 == 1 {
+			for _, how := range []string{"Free, Reset", "failed message, Reset"} {
+				hw := how
+				if a := measure(func() {
+					if hw == "Free, Reset" {
+						owned.Free()
+					} else {
+						m := owned.Message()
+						_ = m.Field(1).Int32(1)
+						_ = owned.Value().Int32(5)
+						_ = owned.Value().Int32(6) // two values in a row: the writer fails and releases its state
+					}
+					buf.Reset()
+					owned.Reset(buf)
+					if p.Kind == vg.KMessage {
+						m := owned.Message()
+						if werr = wMessage(m, p); werr == nil {
+							out, werr = m.Build()
+						}
+					} else {
+						l := owned.List()
+						if werr = wList(l, p); werr == nil {
+							out, werr = l.Build()
+						}
+					}
+				}); a != 0 {
+					w2 := map[string]any{"stream": "shape", "index": idx, "shape": p.String(), "between_messages": hw}
+					res.Violate("c17:reused-writer-allocates-after:"+hw, fmt.Sprintf("steady-state write with a reused writer (%s between messages) into a reused buffer allocates %.0f objects per message", hw, a), w2)
+				}
+				if werr != nil || string(out) != string(ref) {
+					res.Inconcl("shape %d (%s): the write walk did not reproduce the reference bytes (err=%v)", idx, hw, werr)
+				}
+			}
 		}
 		if idx < 3 {
 			res.Sample(witness)
